@@ -90,3 +90,22 @@ Fixpoint scan_R (ps : list R) (i : nat) (cum r : R) : option nat :=
 
 (* cumulative sum of the first i probabilities *)
 Definition cumR (ps : list R) (i : nat) : R := sumlR (firstn i ps).
+
+(* ---- the same scan in exact rational arithmetic: evaluated by the correspondence check (away from
+   rounding ties) and linked to the real-number definitions above by Properties/C16.v ---- *)
+Close Scope R_scope.
+From MiniMcmc Require Import Base.Num.
+Close Scope R_scope.
+Close Scope Q_scope.
+Definition sumlQ (l : list Q) : Q := fold_right (fun a b => Qred (a + b)%Q) 0%Q l.
+Definition cat_new_Q (ws : list Q) : list Q := map (fun w => Qred (w / sumlQ ws)%Q) ws.
+Fixpoint scan_Q (ps : list Q) (i : nat) (cum r : Q) : option nat :=
+  match ps with
+  | [] => None
+  | p :: t => let c := Qred (cum + p)%Q in
+              if negb (Qle_bool c r) then Some i else scan_Q t (S i) c r
+  end.
+(* probabilities (num/den), then one index per variate (-1: no cumulative sum exceeds it) *)
+Definition catq_eval (ws rs : list Q) : list Z :=
+  let ps := cat_new_Q ws in
+  qouts ps ++ map (fun r => match scan_Q ps 0 0%Q r with Some i => Z.of_nat i | None => (-1)%Z end) rs.
